@@ -3,5 +3,5 @@ From Coq Require Import ZArith List Extraction ExtrOcamlBasic.
 From MomoCommon Require Import GenPrelude.
 From C01 Require HashModel HashInst HashInstProofs Gen_LimP4 Gen_Open2N2 Gen_Open2N2w Gen_OpenN1.
 Extraction Blacklist List String Int.   (* only renames the generated file List.ml -> List0.ml (clash with OCaml's stdlib List used by the I/O helper) *)
-Separate Extraction HashInst.it_begin_cfg HashInst.it_next_cfg HashInst.it_get_cfg HashInst.it_remove_cfg HashInst.wstep_cfg HashInst.winit_cfg HashInst.step_cfg HashInst.shape_cfg HashInst.init_cfg HashInst.traverse_cfg HashInst.count_cfg
+Separate Extraction HashInst.hremove_if_b_cfg HashInst.it_begin_cfg HashInst.it_next_cfg HashInst.it_get_cfg HashInst.it_remove_cfg HashInst.wstep_cfg HashInst.winit_cfg HashInst.step_cfg HashInst.shape_cfg HashInst.init_cfg HashInst.traverse_cfg HashInst.count_cfg
   HashInst.calc_capacity HashInst.shift_fn HashInst.start_fn HashInst.next_fn HashInst.hash_fn HashInst.mkCfg HashInstProofs.cfg_valid_b Gen_LimP4.pvCalcShortHash Gen_Open2N2.pvCalcShortHash Gen_Open2N2w.pvCalcShortHash Gen_OpenN1.ptCalcShortHash.
